@@ -84,6 +84,7 @@ def fold_resolve(repo: Repo) -> dict | None:
         "direct name": ({"t": ty}, "t", ty),
         "alias chain of 3": ({"a": "b", "b": "c", "c": ty}, "a", ty),
         "alias chain of 9": ({**{f"n{i}": f"n{i + 1}" for i in range(8)}, "n8": ty}, "n0", ty),
+        "alias chain of 10 (the documented limit: the tenth lookup yields the type)": ({**{f"n{i}": f"n{i + 1}" for i in range(9)}, "n9": ty}, "n0", ty),
         "unknown name": ({"t": ty}, "u", "raise"),
         "dangling alias": ({"a": "b"}, "a", "raise"),
         "alias cycle": ({"a": "b", "b": "a"}, "a", "raise"),
@@ -784,6 +785,101 @@ def fold_is_eof(repo: Repo) -> dict | None:
     except Raised as e:
         out["bad"].append(("raised", str(e), None, None))
         return out
+
+
+def fold_generic_read_array(repo: Repo) -> dict | None:
+    """MetaType._read_array (the slot every type without its own bulk reader inherits) over (stream length, start, count): a counted read asks the
+    element reader count times; the EOF mode reads whole elements until the stream is exhausted, hands the context on, and leaves the stream at its
+    end - the end-of-stream probe consumes nothing."""
+    from .codecfold import Stream, _module_constant
+
+    fi = repo.func("types/base.py", "MetaType._read_array")
+    out: dict = {"cases": 0, "bad": []}
+    try:
+        eof = _module_constant(repo, "types/base.py", "EOF", {})
+        env = {q: UserFunc(f.node) for q, f in repo.module("types/base.py").functions.items() if "." not in q}
+        env["EOF"] = eof
+        for total, start, count in ((0, 0, eof), (2, 0, eof), (6, 0, eof), (6, 2, eof), (8, 8, eof), (6, 0, 2), (6, 2, 0), (4, 0, 2)):
+            data = bytes(range(1, total + 1))
+            st = Stream(data)
+            st.pos = start
+            ctxs: list = []
+
+            def read(stream, context=None, st=st, ctxs=ctxs):
+                raw = st.data[st.pos:st.pos + 2]
+                if len(raw) != 2:
+                    raise EOFError("short")
+                st.pos += 2
+                ctxs.append(context)
+                return bytes(raw)
+
+            cls = Sym("T", {"size": 2}, {"_read": Host(read)})
+            ctx = {"n": 1}
+            try:
+                got: Any = Evaluator(env, steps=4000).call_user(UserFunc(fi.node), [cls, st.sym(), count, ctx], {})
+                got = list(got)
+            except (Raised, EOFError) as e:
+                got = f"raise {e}"
+            n = (total - start) // 2 if count == eof else count
+            want = [data[start + 2 * i:start + 2 * i + 2] for i in range(n)]
+            out["cases"] += 1
+            if got != want or st.pos != start + 2 * n or any(c is not ctx for c in ctxs):
+                out["bad"].append((total, start, "EOF" if count == eof else count, got if isinstance(got, str) else [bytes(x).hex() for x in got], st.pos,
+                                   "context dropped" if any(c is not ctx for c in ctxs) else ""))
+        return out
+    except Refused:
+        return None
+    except (TypeError, KeyError, IndexError, ValueError, AttributeError):
+        return None
+
+
+def fold_input_predicates(repo: Repo) -> dict | None:
+    """_is_buffer_type / _is_readable_type over kinds of input: exactly bytes, bytearray and memoryview are buffers; anything with read() is a
+    stream - also when it exports a buffer as well (an mmap): the two call forms T(x) and T.read(x) test the predicates in different orders, so an
+    object that answers yes to both is parsed from its current position by one and from byte 0 by the other."""
+    out: dict = {"cases": 0, "bad": []}
+    buf = repo.func_opt("types/base.py", "_is_buffer_type")
+    rdb = repo.func_opt("types/base.py", "_is_readable_type")
+    if buf is None or rdb is None:
+        return None
+    mm = Sym("mmap-like", {"exports_buffer": True}, {"read": Host(lambda n=-1: b""), "seek": Host(lambda *a: 0), "tell": Host(lambda: 0)})
+    arr = Sym("array-like", {"exports_buffer": True})
+    stream = Sym("stream", {}, {"read": Host(lambda n=-1: b"")})
+
+    def mview(x):
+        if isinstance(x, (bytes, bytearray, memoryview)):
+            return memoryview(x)
+        if isinstance(x, Sym) and x.attrs.get("exports_buffer"):
+            return Sym("view", {}, {"release": Host(lambda: None)})
+        raise TypeError("memoryview: a bytes-like object is required")
+
+    mv_host = Host(mview)
+
+    def isinst(o, k):
+        ks = tuple(memoryview if x is mv_host else x for x in (k if isinstance(k, tuple) else (k,)))
+        if all(x in (bytes, bytearray, memoryview, int, str, list) for x in ks):
+            return isinstance(o, ks)
+        raise Refused("isinstance against a non-builtin")
+
+    env = {"isinstance": Host(isinst), "hasattr": Host(lambda o, n: isinstance(o, Sym) and n in o.methods), "memoryview": mv_host, "bytes": bytes,
+           "bytearray": bytearray, "callable": Host(lambda x: isinstance(x, (tuple, Host))), "getattr": Host(lambda o, n, *d: ("symmethod", o, n) if isinstance(o, Sym) and n in o.methods else (d[0] if d else None))}
+    cases = [("bytes", b"ab", True, False), ("a bytearray", bytearray(b"ab"), True, False), ("a memoryview", memoryview(b"ab"), True, False), ("a stream", stream, False, True),
+             ("an int", 5, False, False), ("a str", "ab", False, False), ("a list of ints", [1, 2], False, False), ("an mmap (stream that also exports a buffer)", mm, False, True)]
+    try:
+        for label, v, want_buf, want_read in cases:
+            for fi, want, what in ((buf, want_buf, "_is_buffer_type"), (rdb, want_read, "_is_readable_type")):
+                try:
+                    got = bool(Evaluator(env, steps=500).call_user(UserFunc(fi.node), [v], {}))
+                except Raised as e:
+                    got = f"raise {e}"
+                out["cases"] += 1
+                if got != want:
+                    out["bad"].append((what, label, got, want))
+        return out
+    except Refused:
+        return None
+    except (TypeError, KeyError, IndexError, ValueError, AttributeError):
+        return None
 
 
 def fold_len(repo: Repo) -> dict | None:
